@@ -9,7 +9,10 @@ package main
 import (
 	_ "crypto/sha256"
 	_ "crypto/sha512"
+	"fmt"
+	"os"
 	"strconv"
+	"strings"
 
 	"verifharness/common"
 )
@@ -52,5 +55,45 @@ func main() {
 	}
 	for i := 0; i < run.Scale(1200, 40000); i++ {
 		mixCase(r.U64())
+	}
+	checkCoverage()
+}
+
+// checkCoverage: a stream that produced nothing is a broken check, not a pass.
+func checkCoverage() {
+	need := []string{
+		"settrace/set-shared", "settrace/set-single", "settrace/mix-shared", "settrace/mix-single",
+		"history/redirect-followed", "history/token-redirect", "history/host-alias", "history/realm-on-registry-host",
+		"history/preset-authorization", "history/token-revoked", "history/challenge-outside-model-parser",
+		"history/failure-injected", "history/mode-change", "challenge/bearer", "allscopes",
+	}
+	prefixes := []string{"history/shared/mode=2/sends=3/", "history/single/mode=2/sends=3/", "history/none/mode=2/sends=2/fetch=1/",
+		"history/shared/mode=1/sends=1/fetch=0/=ok", "once/n=", "scopes/len=", "actions/len=", "mix/", "set/fetches-saved="}
+	var missing []string
+	for _, k := range need {
+		if run.Dist[k] == 0 {
+			missing = append(missing, k)
+		}
+	}
+	for _, p := range prefixes {
+		found := false
+		for k, v := range run.Dist {
+			if v > 0 && strings.HasPrefix(k, p) {
+				found = true
+			}
+		}
+		if !found {
+			missing = append(missing, p+"*")
+		}
+	}
+	judged := run.Dist["settrace/mix-shared"] + run.Dist["settrace/mix-single"]
+	unjudged := run.Dist["settrace/mix-shared/unjudged"] + run.Dist["settrace/mix-single/unjudged"]
+	if judged < 3*unjudged {
+		missing = append(missing, fmt.Sprintf("judged Set traces of the mixes: %d judged vs %d unjudged", judged, unjudged))
+	}
+	if len(missing) > 0 {
+		run.Finish()
+		fmt.Fprintf(os.Stderr, "C16 harness: coverage floor not reached (no case of): %s\n", strings.Join(missing, ", "))
+		os.Exit(3)
 	}
 }
